@@ -1,5 +1,5 @@
 import RactorModel.Lemmas.PgSpec
-import RactorModel.Lemmas.PgFineEq
+import RactorModel.Lemmas.PgNotify
 
 /-!
 # C11 — process groups reflect live membership and tell their monitors
@@ -281,7 +281,77 @@ theorem fine_exit_is_exit (ops : List Op) (a : Nat) (hd : a ∉ (run init ops).d
   rw [e]
   exact ⟨rfl, Fine.fineExit_eq_exit h hd⟩
 
+/-! ### Who is told is decided where the change is made (regions, not whole calls) -/
+
+/-- `join_scoped` and `leave_scoped` are their entry region followed by their notification
+region; everybody who is to be told — group, scope and all-scopes monitors — is recorded in the
+entry region (`Pending.to = recipients` of that moment) and the notification region
+(`notifyPending`) looks nothing up any more: it does not even take the state. So whatever
+`monitor` / `demonitor` / `monitor_scope` / `demonitor_scope` calls run between the two regions,
+the event goes to exactly the monitors of the time of the change. -/
+theorem join_recipients_fixed_at_entry (st : State) (s g : Nat) (as : List Nat) :
+    (as.filter (alive st) ≠ [] → (joinEntry st s g as).1 = (join st s g as).1) ∧
+    (((joinEntry st s g as).2.map notifyPending).getD []) = (join st s g as).2 ∧
+    ∀ p, (joinEntry st s g as).2 = some p → p.to = recipients st (s, g) := by
+  refine ⟨(joinEntry_notify st s g as).1, (joinEntry_notify st s g as).2, ?_⟩
+  intro p hp
+  unfold joinEntry at hp
+  by_cases c : as.filter (alive st) = []
+  · simp [c] at hp
+  · simp only [c, ↓reduceIte, Option.some.injEq] at hp
+    rw [← hp]
+
+theorem leave_recipients_fixed_at_entry (st : State) (s g : Nat) (as : List Nat) :
+    (leaveEntry st s g as).1 = (leave st s g as).1 ∧
+    (((leaveEntry st s g as).2.map notifyPending).getD []) = (leave st s g as).2 ∧
+    ∀ p, (leaveEntry st s g as).2 = some p → p.to = recipients st (s, g) := by
+  refine ⟨(leaveEntry_notify st s g as).1, (leaveEntry_notify st s g as).2, ?_⟩
+  intro p hp
+  unfold leaveEntry at hp
+  cases hg : get st.map (s, g) with
+  | none => simp [hg] at hp
+  | some gs =>
+    simp only [hg, Option.some.injEq] at hp
+    rw [← hp]
+
+/-- The automatic `Leave` of an exiting actor: the iteration of `leave_all` that takes the actor
+out of group `k` records `recipients` of that very moment; no environment step — any public call
+at its locked region, in particular `monitor`/`demonitor`/`monitor_scope`/`demonitor_scope`, any
+clean-up region, any other actor's exit — touches the records; and what `finish` sends is a
+function of the records alone. Hence the `Leave` of each group goes to exactly the listeners
+present at the removal step, whatever interleaves afterwards. -/
+theorem exit_leave_recipients_fixed_at_removal (a : Nat) (st : State) (mk : List Key)
+    (removed : List (Key × List Nat)) :
+    (∀ k, k ∈ mk → a ∈ membersOf st k →
+      (Fine.fstep a ⟨st, .leaving mk removed⟩ (.lvKey k)).ph =
+        .leaving (del k mk) (removed ++ [(k, recipients st k)])) ∧
+    (∀ envs : List Fine.FOp, (∀ op ∈ envs, Fine.isEnv op = true) →
+      (Fine.frun a ⟨st, .leaving mk removed⟩ envs).ph = .leaving mk removed) ∧
+    (∀ st' : State, (finishLeave st' a removed).2 =
+      removed.flatMap (fun r => r.2.map (fun m => Ev.mk m false r.1.1 r.1.2 [a]))) :=
+  ⟨fun k hk hm => Fine.lvKey_records a st mk removed k hk hm,
+   fun envs h => Fine.envs_keep_phase a envs _ h,
+   fun st' => Fine.finishLeave_events st' a removed⟩
+
+/-- Finding F6 (before the `fix:` commit the scope / all-scopes listeners were looked up in the
+notification region): then the recipients are NOT fixed at the change. Witness: `join 1 0 [2]` has
+taken effect, actor 1 subscribes to all scopes afterwards, and is among the recipients. -/
+theorem recipients_legacy_not_fixed :
+    let stEntry := run init [.join 1 0 [0, 1], .monitorScope 1 2]
+    let stChanged := (join stEntry 1 0 [2]).1
+    let stNotify := monitorScope stChanged 0 1
+    recipients stEntry (1, 0) = [2] ∧ legacyRecipients stEntry stNotify (1, 0) = [2, 1] := by decide
+
 /-! ### Non-vacuity -/
+
+/-- actor 2 stops monitoring group (1,0) after actor 0 has been taken out of it but before the
+notifications are sent: it is still told (the record was made at the removal) -/
+example :
+    let st0 := run init [.join 1 0 [0, 1], .monitor 0 2, .monitorScope 1 3]
+    let fs := Fine.frun 0 ⟨st0, .live⟩
+      [.mark, .demTake, .demDone, .take, .lvKey (1, 0), .api (.demonitor 0 2), .api (.demonitorScope 1 3)]
+    fs.ph = .leaving [] [((1, 0), [2, 3])] ∧
+    (finishLeave fs.st 0 [((1, 0), [2, 3])]).2 = [⟨2, false, 1, 0, [0]⟩, ⟨3, false, 1, 0, [0]⟩] := by decide
 
 /-- an exit of actor 0 (member of (1,0), monitor of (1,0) and of all scopes) racing a join that
 names it (rejected after `mark`), a leave, a monitor registration with its clean-up region: the
@@ -334,3 +404,7 @@ end C11
 #print axioms C11.exit_done_stable
 #print axioms C11.exit_race_no_late_join
 #print axioms C11.fine_exit_is_exit
+#print axioms C11.join_recipients_fixed_at_entry
+#print axioms C11.leave_recipients_fixed_at_entry
+#print axioms C11.exit_leave_recipients_fixed_at_removal
+#print axioms C11.recipients_legacy_not_fixed
